@@ -329,6 +329,9 @@ EQUIVALENTS = [
     ("message-type-order-by-table", ("C15", "C04", "C12", "C13"), [(ENUM,
       "    def __lt__(self, other):\n        values = [e for e in MessageType]\n        return values.index(self) < values.index(other)",
       "    def __lt__(self, other):\n        return _SORT_POSITIONS[self] < _SORT_POSITIONS[other]\n\n\n_SORT_POSITIONS = {message_type: position for position, message_type in enumerate([\n    MessageType.INTERNAL,\n    MessageType.SEQUENCE_CONTROL,\n    MessageType.KEY_SIGNATURE,\n    MessageType.TIME_SIGNATURE,\n    MessageType.CONTROL_CHANGE,\n    MessageType.PROGRAM_CHANGE,\n    MessageType.NOTE_OFF,\n    MessageType.NOTE_ON,\n    MessageType.WAIT,\n])}")]),
+    ("group-merge-by-unpacking", ("C13", "C12"), [(MF,
+      "            track = sequences_to_merge[0]\n            track.merge(sequences_to_merge[1:])",
+      "            track, *others = sequences_to_merge\n            track.merge(others)")]),
     ("transpose-shift-helper", ("C14",), [(REL,
       "                msg.note += transpose_by\n                while msg.note < NOTE_LOWER_BOUND:\n                    had_to_shift = True\n                    msg.note += 12\n                while msg.note > NOTE_UPPER_BOUND:\n                    had_to_shift = True\n                    msg.note -= 12\n",
       "                if RelativeSequence._shift_note(msg, transpose_by):\n                    had_to_shift = True\n"),
@@ -714,6 +717,27 @@ class _Ternary(ast.NodeTransformer):
         return node
 
 
+class _LenShift(ast.NodeTransformer):
+    """`len(x) > c` <-> `len(x) >= c + 1`, `len(x) < c` <-> `len(x) <= c - 1` (lengths are integers)."""
+    _MAP = {ast.Gt: (ast.GtE, +1), ast.GtE: (ast.Gt, -1), ast.Lt: (ast.LtE, -1), ast.LtE: (ast.Lt, +1)}
+
+    def __init__(self):
+        self.n = 0
+
+    def visit_Compare(self, node):
+        self.generic_visit(node)
+        if len(node.ops) == 1 and type(node.ops[0]) in self._MAP and isinstance(node.left, ast.Call) and isinstance(node.left.func, ast.Name) \
+                and node.left.func.id == "len" and isinstance(node.comparators[0], ast.Constant) and isinstance(node.comparators[0].value, int) \
+                and not isinstance(node.comparators[0].value, bool):
+            op, d = self._MAP[type(node.ops[0])]
+            c = node.comparators[0].value + d
+            if c >= 0:
+                self.n += 1
+                node.ops = [op()]
+                node.comparators = [ast.copy_location(ast.Constant(value=c), node.comparators[0])]
+        return node
+
+
 class _SwapCmp(ast.NodeTransformer):
     """`a < b` -> `b > a`, `a == b` -> `b == a` ... for single comparisons (not `in` / `is`)."""
     _MIRROR = {ast.Lt: ast.Gt, ast.Gt: ast.Lt, ast.LtE: ast.GtE, ast.GtE: ast.LtE, ast.Eq: ast.Eq, ast.NotEq: ast.NotEq}
@@ -774,6 +798,11 @@ def rewrite_function(program: Program, qualname: str, kind: str) -> Program | No
             return None
     elif kind == "inline":
         w = _Inline(target)
+        w.visit(target)
+        if w.n == 0:
+            return None
+    elif kind == "lenshift":
+        w = _LenShift()
         w.visit(target)
         if w.n == 0:
             return None
@@ -1037,7 +1066,7 @@ def run(ctx: Ctx) -> None:
     targets += sorted(q for q in ctx.analysed_functions if q not in targets and q in ctx.p.functions)     # everything the check looked at
     jobs.append(("rewrite", prop, "<whole tree>", "reformat"))
     for q in targets:
-        for kind in ("rename", "aug", "pass", "hoist", "flip", "demorgan", "swapcmp", "swapstmt", "temp", "unroll", "inline", "truthy", "isenum", "ternary"):
+        for kind in ("rename", "aug", "pass", "hoist", "flip", "demorgan", "swapcmp", "swapstmt", "temp", "unroll", "inline", "truthy", "isenum", "ternary", "lenshift"):
             jobs.append(("rewrite", prop, q, kind))
     for eid, props, reps in EQUIVALENTS:
         if prop in props:
